@@ -32,6 +32,11 @@ var codecWriter = &xWriter{
 // the translated units, callees before callers
 var xUnits = []xUnit{
 	{Name: "tr_TarsRequest", Dir: "tars/protocol", Func: "TarsRequest", Globals: []string{"maxPackageLength"}},
+	{Name: "tr_WriteHead", Dir: "tars/protocol/codec", Func: "Buffer.WriteHead", Writer: codecWriter},
+	{Name: "tr_WriteInt8", Dir: "tars/protocol/codec", Func: "Buffer.WriteInt8", Writer: codecWriter},
+	{Name: "tr_WriteInt16", Dir: "tars/protocol/codec", Func: "Buffer.WriteInt16", Writer: codecWriter},
+	{Name: "tr_WriteInt32", Dir: "tars/protocol/codec", Func: "Buffer.WriteInt32", Writer: codecWriter},
+	{Name: "tr_WriteInt64", Dir: "tars/protocol/codec", Func: "Buffer.WriteInt64", Writer: codecWriter},
 }
 
 type xPkg struct {
@@ -46,7 +51,7 @@ type xPkg struct {
 type xImporter struct{ src types.Importer }
 
 func (m xImporter) Import(path string) (*types.Package, error) {
-	if path == "encoding/binary" || path == "math" {
+	if path == "encoding/binary" || path == "math" || path == "bytes" {
 		return m.src.Import(path)
 	}
 	p := types.NewPackage(path, filepath.Base(path))
@@ -141,6 +146,11 @@ func xlateUnit(root string, u *xUnit, pkgs map[string]*xPkg, records map[string]
 		}
 	}
 	x.nres = len(rts)
+	if sig, ok := x.info.ObjectOf(fd.Name).Type().(*types.Signature); ok {
+		for i := 0; i < sig.Results().Len(); i++ {
+			x.resTypes = append(x.resTypes, sig.Results().At(i).Type())
+		}
+	}
 	switch len(rts) {
 	case 0:
 		x.retType = "unit"
